@@ -1,0 +1,17 @@
+//go:build verif
+
+package packet
+
+import "io"
+
+// Verification hooks for property C08 (see /verif). Not compiled without the "verif" tag.
+
+// VerifReadLength runs readLength (new-format packet length, RFC 4880 4.2.2) on r.
+func VerifReadLength(r io.Reader) (length int64, isPartial bool, err error) {
+	return readLength(r)
+}
+
+// VerifReadMPI runs readMPI on r.
+func VerifReadMPI(r io.Reader) (mpi []byte, bitLength uint16, err error) {
+	return readMPI(r)
+}
